@@ -250,7 +250,7 @@ def run(tier, seed_):
     jobs = common.NCPU
     recs = []
     with ProcessPoolExecutor(max_workers=jobs) as ex:
-        for part in ex.map(_worker, [(shapes[i::jobs], i * 100000, seed_) for i in range(jobs) if shapes[i::jobs]]):
+        for part in ex.map(_worker, [(shapes[i::jobs], i * 100003, seed_) for i in range(jobs) if shapes[i::jobs]]):
             recs += part
     log(f"[C10] {len(recs)} conversion round trips on {len(shapes)} TLC-enumerated states ({t():.0f}s)")
 
@@ -416,7 +416,7 @@ def run_c11(tier, seed_):
     jobs = common.NCPU
     recs = []
     with ProcessPoolExecutor(max_workers=jobs) as ex:
-        for part in ex.map(_disk_worker, [(shapes[i::jobs], i * 100000, seed_) for i in range(jobs) if shapes[i::jobs]]):
+        for part in ex.map(_disk_worker, [(shapes[i::jobs], i * 100003, seed_) for i in range(jobs) if shapes[i::jobs]]):
             recs += part
     log(f"[C11] {len(recs)} write/read round trips on {len(shapes)} TLC-enumerated states ({t():.0f}s)")
 
